@@ -24,6 +24,8 @@ def build(par, family="Node", names=None, attrs=None):
         nodes = [F.ValLM(names[i], i % 2) for i in range(k)]
     elif family == "FALSY":
         nodes = [F.FalsyNM(names[i], i % 2) for i in range(k)]
+    elif family == "ITER":
+        nodes = [F.IterNM(names[i], i % 2) for i in range(k)]
     elif family == "FALSYNODE":
         nodes = [F.FalsyNode(names[i]) for i in range(k)]  # always falsy, also as a parent with children
     elif family == "MIX":
@@ -48,7 +50,7 @@ def build_ch(ch, family="Node", names=None):
     return nodes
 
 
-READ_FAMILIES = ("Node", "NM", "LM", "AnyNode", "VAL", "FALSY", "VALLM", "FALSYNODE")
+READ_FAMILIES = ("Node", "NM", "LM", "AnyNode", "VAL", "FALSY", "VALLM", "FALSYNODE", "ITER")
 
 
 def evolving_universe(ctx, rng, fam, k, steps, fault_rate=0.0):
@@ -61,6 +63,9 @@ def evolving_universe(ctx, rng, fam, k, steps, fault_rate=0.0):
 
     ffam = {"Node": "Node", "AnyNode": "AnyNode", "VAL": "VALNM"}.get(fam, fam)
     eng = Engine(ctx, (), faults=False)
+    # in half of the histories the hooks read every node's parent/children (as a validating user hook does), in the
+    # other half nobody looks at the nodes while a call is in progress: both mask different stale-memo defects
+    reading_hooks = rng.random() < 0.5
     ch0 = gen.random_forest(rng, k)
     rec = F.Rec(F.materialise(ffam, ch0))
     hist = []
@@ -79,7 +84,7 @@ def evolving_universe(ctx, rng, fam, k, steps, fault_rate=0.0):
             plan = ("evict", rng.choice([0, 2]))
         hist.append([F._jsonable(call), F._jsonable(plan)])
         pre = snap
-        ex = F.run_call(rec, ffam, call, F.Plan(plan), snaps_on=True)  # the hooks read every node's parent/children
+        ex = F.run_call(rec, ffam, call, F.Plan(plan), snaps_on=reading_hooks)
         snap = rec.snapshot()
         probs = M.invariant(snap)
         if probs:
